@@ -211,3 +211,14 @@ def run_replay(record, known=None):
         else:
             b.step(ev)
     return b
+
+
+def rule():
+    return (f"runs 0..{N_CORPUS - 1}: a fixed corpus of {N_CORPUS} operations (every op kind x pairing form, successful and "
+            "naturally failing part-way) for each of which EVERY fault instant is enumerated: an injected KeyboardInterrupt / "
+            "MemoryError at each traced line event of pyplate/*.py, and a MemoryError from each deepcopy call; remaining runs: "
+            "seeded histories in which 10-40% of the events carry a fault at a seeded instant (dry run -> faulted run -> invariants "
+            "-> recovery), incl. instants inside copy.py. After every fault the fingerprint of every live object, every argument "
+            "and the module config must be unchanged and the fault-free retry must equal the dry run. Non-trivial: >= 2 "
+            "successful state-changing events (or an enumeration); distinct = distinct coverage signatures (event tuples incl. "
+            "fault kind and phase quintile).")
